@@ -255,7 +255,7 @@ def execute(sc) -> Result:
             offset = 0
         else:
             # first a plain run, then a warm start from its first completed file
-            run0 = driver.run_scenario(sc, d, shims=False)
+            run0 = driver.run_scenario(sc, d)
             res.executions += 1
             files = readback.list_output_files(d)
             if run0.error is not None or len(files) < 2:
@@ -291,6 +291,34 @@ def execute(sc) -> Result:
         if pl["plugin"] != "name" and marks != want:
             res.add(Violation("C19.plugin_precedence", None, f"ibm.module spelled {pl['plugin']}", marks, want))
         ipre, ipost = check_protocol(res, sc, run, first, last, ref)
+        if pl["start"] == "warm" and not sc["tracker"].get("diffusion"):
+            # the catch-up step and every later step of the warm-started run leave the state the uninterrupted
+            # run had at the same model time (living particles: pids exactly, positions to 1e-5 cells)
+            base = run0.rec.snap_by_step("ibm.post")
+            for st in sorted(ipost):
+                b = base.get(st + offset)
+                if b is None:
+                    continue
+                a = ipost[st]
+                la, lb = a["vars"]["alive"].astype(bool), b["vars"]["alive"].astype(bool)
+                pa, pb = a["vars"]["pid"][la], b["vars"]["pid"][lb]
+                if len(pa) != len(pb) or (a["npid"] == b["npid"] and not np.array_equal(pa, pb)):
+                    if a["npid"] == b["npid"]:
+                        res.add(Violation("C19.warm_catchup", st, "living particles after the step", pa, f"{pb} (uninterrupted run)"))
+                    break
+                if not np.array_equal(pa, pb):
+                    break       # identifiers differ after a restart that lost the counter: C08's listed finding
+                for k in ("X", "Y", "Z"):
+                    x, y = a["vars"][k][la].astype(float), b["vars"][k][lb].astype(float)
+                    bad = np.abs(x - y) > 1e-5 * np.maximum(1.0, np.abs(y))
+                    if bad.any():
+                        q = int(np.nonzero(bad)[0][0])
+                        res.add(Violation("C19.warm_catchup", st, f"{k} of pid {pa[q]} after the step", x[q],
+                                          f"{y[q]} (uninterrupted run)"))
+                        break
+                else:
+                    continue
+                break
         stem = "out" if pl["start"] == "cold" else "warm"
         R = readback.Records(readback.list_output_files(d, stem))
         dt = truth.dt_s(sc)
